@@ -48,14 +48,13 @@ Proof.
   apply orb_false_iff in H. destruct H as [H1 H2]. rewrite H1. now apply IH.
 Qed.
 
-Lemma emitted_keys : forall x l k, mem k (map fst (flat_map (emit x) l)) = true -> mem k (map m_key l) = true.
+Lemma emitted_keys : forall x l k, In k (map fst (flat_map (emit x) l)) -> In k (map m_key l).
 Proof.
   induction l as [|e r IH]; cbn; intros k H; [exact H|].
-  rewrite map_app, (proj2 (mem_In k _)) in *; try reflexivity.
-  - apply mem_In in H. rewrite map_app in H. apply in_app_or in H. destruct H as [H|H].
-    + unfold emit in H. destruct (m_omit e && is_nil (get (m_field e) x)); cbn in H; [contradiction|].
-      destruct H as [H|[]]. left. symmetry. exact H.
-    + right. apply mem_In. apply IH. apply mem_In. exact H.
+  rewrite map_app in H. apply in_app_or in H. destruct H as [H|H].
+  - unfold emit in H. destruct (m_omit e && is_nil (get (m_field e) x)); cbn in H; [contradiction|].
+    destruct H as [H|[]]. left. exact H.
+  - right. now apply IH.
 Qed.
 
 Lemma get_encode_entry : forall x l e,
@@ -69,7 +68,7 @@ Proof.
       rewrite get_absent.
       * destruct (get (m_field e) x); [reflexivity|discriminate].
       * destruct (mem (m_key e) (map fst (flat_map (emit x) r))) eqn:M; [|reflexivity].
-        apply emitted_keys in M. apply mem_In in M. contradiction.
+        apply mem_In in M. apply emitted_keys in M. contradiction.
     + cbn. now rewrite String.eqb_refl.
   - assert (Hne : m_key e <> m_key e0).
     { intro Heq. apply Hnotin. rewrite <- Heq. now apply in_map. }
